@@ -93,6 +93,13 @@ func (ex *Exec) vcall(name string, fn *ssa.Function, args []Val, caller *frame) 
 			return funcDisplayName(f.Fn)
 		}
 		return "nil"
+	case "MapOrder":
+		ex.mapMode = int(ex.choose(args[0].(Int)))
+		ex.mapSite = int(ex.choose(args[1].(Int)))
+		ex.mapSites = 0
+		return nil
+	case "MapSites":
+		return mkInt(64, uint64(ex.mapSites))
 	case "TypeOf":
 		a := args[0].(iface)
 		if a.t == nil {
